@@ -41,6 +41,42 @@ def operand_ok(rep, want, st, src):
     return True
 
 
+def near_floats(x, y):
+    import math
+    if x != x or y != y or x in (float("inf"), float("-inf")) or y in (float("inf"), float("-inf")):
+        return False
+    if x == 0 or y == 0:
+        return True
+    return abs(math.frexp(x)[1] - math.frexp(y)[1]) <= 160
+
+
+def near_pair(rng):
+    import math
+    r = rng.random()
+    sg = lambda: -1.0 if rng.random() < 0.5 else 1.0
+    if r < 0.25:
+        return sg() * rng.randint(0, 40) / 2.0, sg() * rng.randint(1, 12) / 2.0
+    if r < 0.45:
+        y = sg() * rng.uniform(0.001, 50.0)
+        k = rng.randint(-30, 30)
+        x = k * y
+        for _ in range(rng.randint(0, 2)):
+            x = math.nextafter(x, sg() * float("inf"))
+        return x, y
+    if r < 0.6:
+        y = sg() * rng.uniform(1e-3, 1e3)
+        return sg() * rng.uniform(0, 1e3) * 2.0 ** rng.randint(0, 120), y
+    if r < 0.7:
+        y = sg() * rng.randint(1, 1 << 20) * 5e-324
+        return sg() * rng.randint(0, 1 << 40) * 5e-324 * rng.choice([1, 1 << 10, 1 << 52]), y
+    if r < 0.8:
+        return sg() * rng.uniform(0, 1e300), sg() * rng.uniform(1e280, 1e308)
+    if r < 0.9:
+        return rng.choice([0.0, -0.0, 1.0, -1.0, 0.1, -0.1, 7.5, -7.5]), rng.choice([0.0, -0.0, 3.0, -3.0, 0.3, -0.3])
+    x = rng.uniform(-1000, 1000)
+    return x, sg() * rng.uniform(0.01, 1000)
+
+
 def special_exacts():
     out = [tg.c_int(2 ** 53 + 1), tg.c_int(2 ** 53 + 3), tg.c_int(2 ** 1024), tg.c_int(2 ** 1024 - 2 ** 970),
            tg.c_int(2 ** 1024 - 2 ** 970 - 1), tg.c_int(-(2 ** 1024)), tg.c_int(10 ** 400), tg.c_int(2 ** 1023),
@@ -97,9 +133,27 @@ def drive(rep, tier, seed):
         for op in ("+", "-", "*"):
             steps.append({"src": "aa %s bb" % op})
             plan.append(("fbin", op, a, b))
+        # the division family is exact arithmetic on a quotient of up to |ea - eb| bits: only for
+        # operands whose exponents are at most ~160 apart (the wide pairs get the near pairs below)
+        if near_floats(x, y):
+            for op in ("/", "%", "%%", "//"):
+                steps.append({"src": "aa %s bb" % op})
+                plan.append(("fbin", op, a, b))
         for op in UN_FLOAT:
             steps.append({"src": "%s(aa)" % op})
             plan.append(("un", op, a))
+        add(steps, plan)
+    # float division family  / % %% //  on pairs built to hit its cases: small integral and half-integral
+    # values of both signs (exact quotients, negative remainders), neighbours of a multiple of the divisor,
+    # subnormal divisors, quotients beyond 2^53
+    for _ in range(100 * scale):
+        x, y = near_pair(rng)
+        a, b = tg.c_float(x), tg.c_float(y)
+        steps = [{"src": "aa := " + tg.src_of(a), "obs": ["aa"]}, {"src": "bb := " + tg.src_of(b), "obs": ["bb"]}]
+        plan = [("operand", a), ("operand", b)]
+        for op in ("/", "%", "%%", "//"):
+            steps.append({"src": "aa %s bb" % op})
+            plan.append(("fbin", op, a, b))
         add(steps, plan)
     # mixed level: one operand exact, the other a float (both orders); aux = the float operation on
     # the converted operands, evaluated in the same session
